@@ -20,9 +20,11 @@ From Snax Require Import Base.Prelude Base.ListAux.
 
 Definition var := nat.
 
-Inductive value := VInt (z : Z) | VMem (shape : list Z).
-Definition as_int (v : value) : Z := match v with VInt z => z | VMem _ => 0 end.
-Definition shape_of (v : value) : list Z := match v with VMem s => s | VInt _ => [] end.
+(* a memref value: the identity of its buffer and its sizes *)
+Inductive value := VInt (z : Z) | VMem (id : Z) (shape : list Z).
+Definition as_int (v : value) : Z := match v with VInt z => z | VMem _ _ => 0 end.
+Definition mem_id (v : value) : Z := match v with VMem i _ => i | VInt _ => -1 end.
+Definition shape_of (v : value) : list Z := match v with VMem _ s => s | VInt _ => [] end.
 
 Inductive binop := BAdd | BSub | BMul | BDivU | BRemU.
 Inductive dimarg := DStatic (z : Z) | DDyn (v : var).
@@ -35,7 +37,8 @@ Inductive pexpr :=
 | PMin (rs : list linform)                (* affine.min *)
 | PDim (src idx : var)                    (* memref.dim *)
 | PAlloc (sizes : list dimarg)            (* memref.alloc: one entry per dimension *)
-| PSubview (src : var) (sizes : list dimarg).  (* memref.subview: only the sizes are observable here *)
+| PSubview (src : var) (sizes : list dimarg)   (* memref.subview: the buffer of its source, new sizes *)
+| PLoad (m : var) (idxs : list var).          (* memref.load: the value last stored at that address *)
 
 Inductive op :=
 | Def (dst : var) (e : pexpr)
@@ -60,44 +63,82 @@ Definition eval_lin (e : env) (l : linform) : Z :=
   fst l + zsum (map (fun cv => fst cv * as_int (e (snd cv))) (snd l)).
 Definition zmin_list (l : list Z) : Z :=
   match l with [] => 0 | x :: r => fold_left Z.min r x end.
-Definition eval_pexpr (e : env) (p : pexpr) : value :=
+Definition event := (nat * list value)%type.
+
+(* Memory.  `memref.store %v, %m[%i...]` is the opaque op with the reserved id STORE and operands
+   v :: m :: i...; its event is also the heap entry.  The heap is the list of store events executed so far
+   (newest first); a load returns the value of the newest store to the same buffer and indices (0 when
+   there is none: the initial contents are not modelled).  A buffer is identified by the SSA name of its
+   memref.alloc (re-executing the alloc does not clear it: contents of a fresh buffer are undefined) or by the
+   identity given to a function argument; a subview shares the buffer of its source (offsets not modelled). *)
+Definition heap := list event.
+Definition STORE : nat := 0%nat.
+Definition is_store (ev : event) : bool := Nat.eqb (fst ev) STORE.
+Definition hpush (t : list event) (h : heap) : heap :=
+  fold_left (fun h ev => if is_store ev then ev :: h else h) t h.
+Fixpoint hload (h : heap) (id : Z) (idxs : list Z) : value :=
+  match h with
+  | [] => VInt 0
+  | ev :: r =>
+    match snd ev with
+    | v :: VMem i _ :: ix =>
+      if (i =? id) && list_eqb Z.eqb (map as_int ix) idxs then v else hload r id idxs
+    | _ => hload r id idxs
+    end
+  end.
+
+Definition eval_pexpr (e : env) (h : heap) (p : pexpr) : value :=
   match p with
   | PConst z => VInt z
   | PBin k a b => VInt (eval_bin k (as_int (e a)) (as_int (e b)))
   | PMin rs => VInt (zmin_list (map (eval_lin e) rs))
   | PDim src idx => VInt (nth (Z.to_nat (as_int (e idx))) (shape_of (e src)) 0)
-  | PAlloc sizes => VMem (map (eval_dim e) sizes)
-  | PSubview _ sizes => VMem (map (eval_dim e) sizes)
+  | PAlloc sizes => VMem 0 (map (eval_dim e) sizes)
+  | PSubview s sizes => VMem (mem_id (e s)) (map (eval_dim e) sizes)
+  | PLoad m idxs => hload h (mem_id (e m)) (map (fun x => as_int (e x)) idxs)
   end.
+(* the value defined by `d = p`: an alloc creates the buffer named d *)
+Definition eval_def (d : var) (e : env) (h : heap) (p : pexpr) : value :=
+  match p with
+  | PAlloc sizes => VMem (Z.of_nat d) (map (eval_dim e) sizes)
+  | _ => eval_pexpr e h p
+  end.
+(* expressions whose value depends on the environment only (not on the heap, not on the defined name) *)
+Definition pure_p (p : pexpr) : bool := match p with PAlloc _ | PLoad _ _ => false | _ => true end.
 
 (* number of iterations of `scf.for lb to ub step s` (s <= 0 is undefined behaviour in MLIR: 0 here) *)
 Definition trip (lb ub s : Z) : Z := if s <=? 0 then 0 else (ub - lb + s - 1) / s.
 
-Definition event := (nat * list value)%type.
+(* the iterations of a loop, threading the heap *)
+Fixpoint iter_hist (f : Z -> heap -> list event) (ks : list Z) (h : heap) : list event :=
+  match ks with
+  | [] => []
+  | k :: r => let t := f k h in t ++ iter_hist f r (hpush t h)
+  end.
 
 (* Values defined inside a loop body are out of scope after the loop: the loop returns its entry env. *)
-Fixpoint exec_op (o : op) (e : env) {struct o} : env * list event :=
+Fixpoint exec_op (o : op) (e : env) (h : heap) {struct o} : env * list event :=
   match o with
-  | Def d p => (upd e d (eval_pexpr e p), [])
+  | Def d p => (upd e d (eval_def d e h p), [])
   | Eff id args => (e, [(id, map e args)])
   | For iv lb ub st body =>
-    let run := (fix run (b : list op) (e : env) {struct b} : list event :=
+    let run := (fix run (b : list op) (e : env) (h : heap) {struct b} : list event :=
                   match b with
                   | [] => []
-                  | o :: b' => let r := exec_op o e in snd r ++ run b' (fst r)
+                  | o :: b' => let r := exec_op o e h in snd r ++ run b' (fst r) (hpush (snd r) h)
                   end) in
-    (e, flat_map (fun k => run body (upd e iv (VInt (as_int (e lb) + k * as_int (e st)))))
-                 (zrange (trip (as_int (e lb)) (as_int (e ub)) (as_int (e st)))))
+    (e, iter_hist (fun k h => run body (upd e iv (VInt (as_int (e lb) + k * as_int (e st)))) h)
+                  (zrange (trip (as_int (e lb)) (as_int (e ub)) (as_int (e st)))) h)
   end.
 
-Fixpoint exec_block (b : list op) (e : env) : env * list event :=
+Fixpoint exec_block (b : list op) (e : env) (h : heap) : env * list event :=
   match b with
   | [] => (e, [])
-  | o :: b' => let r := exec_op o e in
-               let r' := exec_block b' (fst r) in (fst r', snd r ++ snd r')
+  | o :: b' => let r := exec_op o e h in
+               let r' := exec_block b' (fst r) (hpush (snd r) h) in (fst r', snd r ++ snd r')
   end.
 
-Definition trace (b : list op) (e : env) : list event := snd (exec_block b e).
+Definition trace (b : list op) (e : env) (h : heap) : list event := snd (exec_block b e h).
 
 (* ---------------------------------------------------------------- syntactic helpers *)
 Definition scope := list (var * pexpr).
@@ -125,6 +166,7 @@ Definition uses_p (p : pexpr) : list var :=
   | PDim s i => [s; i]
   | PAlloc sz => flat_map dimarg_uses sz
   | PSubview s sz => s :: flat_map dimarg_uses sz
+  | PLoad m ix => m :: ix
   end.
 
 (* every name mentioned (used or defined, at any depth) *)
@@ -143,7 +185,7 @@ Definition maxvar (b : list op) : nat := fold_right Nat.max 0%nat (vars_of b).
    memref.dim and memref.subview declare NoMemoryEffect, memref.alloc allocates, affine.min and
    arith.remui declare nothing (unknown effects => not free), scf.for is recursive. *)
 Definition effect_free_p (p : pexpr) : bool :=
-  match p with PAlloc _ | PMin _ | PBin BRemU _ _ => false | _ => true end.
+  match p with PAlloc _ | PMin _ | PBin BRemU _ _ | PLoad _ _ => false | _ => true end.  (* memref.load: MemoryReadEffect *)
 Fixpoint effect_free (o : op) : bool :=
   match o with
   | Def _ p => effect_free_p p
@@ -325,6 +367,7 @@ Definition sb_p (d w : var) (p : pexpr) : pexpr :=
   | PDim s i => PDim (sbv d w s) (sbv d w i)
   | PAlloc sz => PAlloc (map (sb_dim d w) sz)
   | PSubview s sz => PSubview (sbv d w s) (map (sb_dim d w) sz)
+  | PLoad m ix => PLoad (sbv d w m) (map (sbv d w) ix)
   end.
 Fixpoint subst_op (d w : var) (o : op) : op :=
   match o with
@@ -491,6 +534,7 @@ Definition pexpr_eqb (a b : pexpr) : bool :=
   | PDim s1 i1, PDim s2 i2 => Nat.eqb s1 s2 && Nat.eqb i1 i2
   | PAlloc s1, PAlloc s2 => list_eqb dimarg_eqb s1 s2
   | PSubview v1 s1, PSubview v2 s2 => Nat.eqb v1 v2 && list_eqb dimarg_eqb s1 s2
+  | PLoad m1 i1, PLoad m2 i2 => Nat.eqb m1 m2 && list_eqb Nat.eqb i1 i2
   | _, _ => false
   end.
 Fixpoint op_eqb (a b : op) {struct a} : bool :=
@@ -521,6 +565,7 @@ Definition rn_p m (p : pexpr) : pexpr :=
   | PDim s i => PDim (rn m s) (rn m i)
   | PAlloc sz => PAlloc (map (rn_dim m) sz)
   | PSubview s sz => PSubview (rn m s) (map (rn_dim m) sz)
+  | PLoad x ix => PLoad (rn m x) (map (rn m) ix)
   end.
 Definition cstate := (nat * list (var * var))%type.
 Fixpoint canon_op (o : op) (st : cstate) {struct o} : op * cstate :=
@@ -550,7 +595,7 @@ Definition canon (base : nat) (b : list op) : list op := fst (canon_block b (bas
 Definition value_eqb (a b : value) : bool :=
   match a, b with
   | VInt x, VInt y => x =? y
-  | VMem x, VMem y => list_eqb Z.eqb x y
+  | VMem i x, VMem j y => (i =? j) && list_eqb Z.eqb x y
   | _, _ => false
   end.
 Definition event_eqb (a b : event) : bool :=
